@@ -954,8 +954,11 @@ func (ru *srun) drain() {
 	for i := 0; i < 100 && ru.fatal == ""; i++ {
 		held := ru.g.heldSnapshot()
 		if len(held) > 0 {
+			// the NEWEST Write first: the writers never have two Writes inside the transport (mutual exclusion
+			// theorem), so for them the order is immaterial; a writer that lets a second Write in has it served
+			// while the older one is still incomplete, which puts the interleaving on the wire
 			sort.Slice(held, func(i, j int) bool { return held[i].idx < held[j].idx })
-			w := held[0]
+			w := held[len(held)-1]
 			id := ru.wreq[w]
 			switch {
 			case ru.g.isClosed():
@@ -983,7 +986,9 @@ func (ru *srun) drain() {
 }
 
 func runTemplate(conf sconf, cutFrame, cutOff int, kind string) (sop, ans, top, cls string, ok bool) {
-	conf.sizes = []int{10, 25, 3, 7}
+	if conf.sizes == nil {
+		conf.sizes = []int{10, 25, 3, 7}
+	}
 	ru, fatal := newRun(conf)
 	if ru == nil {
 		return fatal, "", "", "fatal", true
@@ -1034,6 +1039,112 @@ func runTemplate(conf sconf, cutFrame, cutOff int, kind string) (sop, ans, top, 
 		return "", "", ru.traceLine(), cls + "/own-heartbeat", true
 	}
 	return ru.schedLine(), ru.answer(), ru.traceLine(), cls, true
+}
+
+// ---- size templates: a frame of `totals[0]` bytes is held inside the transport after `holdOff` of its bytes while
+// the other requests (frames of totals[1..]) are started and the flush timer is tried after each; every Write that
+// enters the transport meanwhile is served at once and whole (drain serves the newest Write first); then the held
+// Write gets the rest of its bytes and ends with `kind` ("ok", or an error kind after `holdOff` bytes only); then
+// everything is drained and one more request is made. With writers that keep the socket to one Write at a time the
+// other requests simply wait (semaphore / the flusher is busy); the template exists for the sizes: a path taken
+// only by frames above some size is exercised with another request outstanding in every combination of
+// {large first, small first, two large} x hold position x writer.
+func runSizeTemplate(conf sconf, totals []int, holdOff int, kind string) (sop, ans, top, cls string) {
+	conf.sizes = nil
+	for i, t := range totals {
+		conf.sizes = append(conf.sizes, padFor(conf.proto, i+1, t))
+	}
+	conf.sizes = append(conf.sizes, 5)
+	ru, fatal := newRun(conf)
+	if ru == nil {
+		return fatal, "", "", "fatal"
+	}
+	defer ru.finish()
+	ru.exec("s1")
+	if conf.coal {
+		ru.exec("t") // refused when request 1 did not go through the queue
+	}
+	w := ru.heldOf(1)
+	if w == nil {
+		return fmt.Sprintf("fatal size template: frame 1 is not inside the transport after: %s (%s)", strings.Join(ru.events, " "), conf.header()), "", "", "fatal"
+	}
+	if holdOff >= len(w.p) {
+		holdOff = len(w.p) - 1
+	}
+	if holdOff > 0 {
+		ru.exec(fmt.Sprintf("p1:%d", holdOff))
+	}
+	others := func() {
+		for i := 0; i < 50 && ru.fatal == ""; i++ {
+			var o *gwrite
+			for _, h := range ru.g.heldSnapshot() {
+				if h != w && (o == nil || h.idx > o.idx) {
+					o = h
+				}
+			}
+			if o == nil {
+				return
+			}
+			id := ru.wreq[o]
+			if o.off < len(o.p) && !ru.g.isClosed() {
+				ru.exec(fmt.Sprintf("p%d:%d", id, len(o.p)-o.off))
+			}
+			if ru.g.isClosed() {
+				ru.exec(fmt.Sprintf("e%d:pipe", id))
+			} else {
+				ru.exec(fmt.Sprintf("e%d:ok", id))
+			}
+		}
+	}
+	for id := 2; id <= len(totals) && ru.fatal == ""; id++ {
+		ru.exec(fmt.Sprintf("s%d", id))
+		others()
+		if conf.coal {
+			ru.exec("t")
+			others()
+		}
+	}
+	if ru.fatal == "" {
+		if kind == "ok" {
+			if w.off < len(w.p) {
+				ru.exec(fmt.Sprintf("p1:%d", len(w.p)-w.off))
+			}
+			ru.exec("e1:ok")
+		} else {
+			ru.exec("e1:" + kind)
+		}
+	}
+	ru.drain()
+	ru.exec(fmt.Sprintf("s%d", len(totals)+1))
+	ru.drain()
+	if ru.fatal != "" {
+		return ru.fatal, "", "", "fatal"
+	}
+	cls = "size/direct"
+	if conf.coal {
+		cls = "size/coalesce"
+	}
+	cls += "/" + sizeLabel(totals[0])
+	for _, t := range totals[1:] {
+		cls += "+" + sizeLabel(t)
+	}
+	cls += "/" + kind
+	if ru.anonSeen {
+		return "", "", ru.traceLine(), cls + "/own-heartbeat"
+	}
+	return ru.schedLine(), ru.answer(), ru.traceLine(), cls
+}
+
+func sizeLabel(t int) string {
+	switch {
+	case t < 4095:
+		return "small"
+	case t <= 4097, t >= 8191 && t <= 8193, t >= 16383 && t <= 16385, t >= 65535 && t <= 65537:
+		return strconv.Itoa(t)
+	case t >= 1<<20-8:
+		return "1MiB"
+	}
+	return "large"
 }
 
 // normLine: closeWithError tells the outstanding calls in Go map order, so WHEN a request that is merely told
